@@ -17,7 +17,7 @@ import warnings
 
 from vf import fakehttp as F
 from vf import sched, vfs, xstate
-from vf.core import HarnessError, Tally, private_xdg
+from vf.core import vacuous, HarnessError, Tally, private_xdg
 
 LEVEL = "model_checking"
 UTC = datetime.timezone.utc
@@ -545,14 +545,14 @@ def run(ctx):
     explore_schedules(ctx, tally, sconf)
     pm = tally.counts.pop("points_max", 0)
     if tally.counts.get("transitions", 0) < 100 or tally.counts.get("crash-states", 0) < 10 or tally.counts.get("schedules", 0) < 20:
-        raise HarnessError(f"vacuous: {tally.counts}")
+        vacuous(tally, f"vacuous: {tally.counts}")
     cov = {
-        "states": tally.counts["states"],
-        "transitions": tally.counts["transitions"],
-        "traces_validated_against_impl": tally.counts["transitions"],
+        "states": tally.counts.get("states", 0),
+        "transitions": tally.counts.get("transitions", 0),
+        "traces_validated_against_impl": tally.counts.get("transitions", 0),
         "samples": tally.samples[:6],
-        "crash_states": tally.counts["crash-states"],
-        "schedules": tally.counts["schedules"],
+        "crash_states": tally.counts.get("crash-states", 0),
+        "schedules": tally.counts.get("schedules", 0),
         "server_pairs": tally.counts.get("server-pairs", 0),
         "max_points_per_schedule": pm,
         "schedule_exploration_capped": bool(tally.counts.get("capped")),
